@@ -5,7 +5,8 @@ import math
 from ..runner import Cell
 from ..driver import Finite, assume
 from .common import *  # noqa: F401,F403
-from .tracer_capture import capture_forward, capture_arc_like, capture_spline, tracer_np
+from .tracer_capture import (capture_forward, capture_arc_like, capture_spline, tracer_np,
+                             capture_arc_full, ArcRecorder)
 from .c01 import frame_condition
 
 PROPERTY_ID = "C10"
@@ -22,7 +23,9 @@ BOUNDS = ("ONLY the plain-Python geometry handed to the sampler is decided; vert
           "[-1000,1000], pitch in (0,1000]; for 3D threads pitch >= 0.5 and |dz| <= 6, i.e. up to 12 turns). Checked: thread hands helix a centre equidistant from "
           "start and target in XY and max(1, floor(|dz|/pitch)) turns; circle hands arc a target "
           "equal to the start; spiral hands helix the start as centre; arc/helix compute centre = "
-          "start + given offset and the absolute target; polyline visits exactly the given points "
+          "start + given offset and the absolute target; arc's Z travel is target z - start z (0 for "
+          "2D targets), its path length hypot(radius x sweep, Z travel), extra parameters forwarded "
+          "(numpy hypot/arctan2 return recognisable dummies); polyline visits exactly the given points "
           "(one G1 each, machine positions compared); spline fits through the start followed by "
           "every given point in order with only consecutive duplicates removed (2-3 symbolic "
           "points); arc_radius on a 3-4-5 configuration scaled by a symbolic k (chord along an axis, "
@@ -169,6 +172,52 @@ def _make_arc_like(shape, rel, dims):
             return V(f"{shape}-target-not-absolute",
                      lambda: f"target-centre = ({dtx!r},{dty!r}), expected "
                              f"({t_abs[0] - (ox + cx)!r},{t_abs[1] - (oy + cy)!r})")
+        reached("captured")
+        return None
+    return h
+
+
+def _make_arc_height(rel, dims, direction):
+    """arc(): the Z travel is target z - start z (0 for a 2D target), the path length handed to the
+    sampler is hypot(arc length, Z travel), and extra parameters are forwarded."""
+    def h(ox: Finite, oy: Finite, oz: Finite, tx: Finite, ty: Finite, tz: Finite, cx: Finite,
+          cy: Finite, f: Finite):
+        _box(ox, oy, oz, tx, ty, tz, cx, cy)
+        assume(f >= 0)
+        o = (ox, oy, oz)
+        pre = mkpre(pos=o, relative=rel)
+        g, rec = prepare(pre)
+        g.set_direction(direction)
+        target = (tx, ty, tz)[:dims]
+        try:
+            recd, calls = capture_arc_full(g, lambda g: g.trace.arc(target, (cx, cy), F=f))
+        except Exception as e:  # noqa: BLE001
+            msg = f"{exc_name(e)}: {e}"
+            return V("arc-unexpected-exception", msg)
+        if len(calls) != 1:
+            return V("arc-did-not-call-parametric-once", lambda: f"{calls!r}")
+        fn, length, kw = calls[0]
+        if len(recd.hypots) != 3:
+            return V("arc-path-length-is-not-hypot-of-arc-length-and-z-travel",
+                     lambda: f"hypot calls {recd.hypots!r}, length handed to the sampler {length!r}")
+        t_z = (oz + tz if rel else tz) if dims == 3 else oz
+        want_height = t_z - oz
+        sweep = -1.25 if direction == "clockwise" else (0.25 - 1.0 + 2 * math.pi)
+        if direction == "clockwise":
+            sweep = 0.25 - 1.0           # already negative
+        arc_len, height = recd.hypots[2]
+        if not num_eq(height, want_height):
+            return V("arc-z-travel-wrong",
+                     lambda: f"Z travel {height!r}, expected {want_height!r} (start z {oz!r}, target "
+                             f"{target!r}, {'relative' if rel else 'absolute'} mode)")
+        if not num_eq(arc_len if arc_len >= 0 else -arc_len, 2.0 * (sweep if sweep >= 0 else -sweep)):
+            return V("arc-length-is-not-radius-times-sweep",
+                     lambda: f"first hypot argument {arc_len!r}, radius 2.0, sweep {sweep!r}")
+        if length != ArcRecorder.LENGTH:
+            return V("arc-path-length-is-not-hypot-of-arc-length-and-z-travel",
+                     lambda: f"length handed to the sampler {length!r}")
+        if kw.get("F") is None or not num_eq(kw["F"], f):
+            return V("arc-parameters-not-forwarded", lambda: f"{kw!r}")
         reached("captured")
         return None
     return h
@@ -400,6 +449,12 @@ def cells(tier):
         for n in ((1, 2) if tier == "quick" else (1, 2, 3)):
             out.append(Cell(f"polyline|{m}|points={n}", _make_polyline(rel, n), budget_s=budget,
                             must_reach=("visited",), entry="PathTracer.polyline"))
+    for rel in (False, True):
+        for dims in (2, 3):
+            for direction in ("clockwise", "counter"):
+                out.append(Cell(f"arc-height-length|{'rel' if rel else 'abs'}|{dims}d|{direction}",
+                                _make_arc_height(rel, dims, direction), budget_s=budget,
+                                must_reach=("captured",), entry="PathTracer.arc"))
     for rel in (False, True):
         for n in ((2,) if tier == "quick" else (2, 3)):
             out.append(Cell(f"spline-controls|{'rel' if rel else 'abs'}|points={n}", _make_spline(rel, n),
